@@ -52,7 +52,7 @@ Qed.
 (* ---- the loop ------------------------------------------------------------------------------ *)
 Lemma loop_sends_le : forall fuel c jit a fs last, (sends (loop c jit fuel a fs last) <= fuel)%nat.
 Proof.
-  induction fuel as [|fuel IH]; intros c jit a fs last; simpl; [lia|].
+  induction fuel as [|fuel IH]; intros c jit a fs last; simpl; [lia|]. unfold guard_conn, guard_status.
   destruct (hd dflt_outcome fs) as [| | | | |s h]; simpl;
     repeat match goal with
            | |- context [if ?b then _ else _] => destruct b; simpl
@@ -63,7 +63,7 @@ Qed.
 
 Lemma loop_sends_pos : forall fuel c jit a fs last, (1 <= sends (loop c jit (S fuel) a fs last))%nat.
 Proof.
-  intros fuel c jit a fs last; simpl.
+  intros fuel c jit a fs last; simpl. unfold guard_conn, guard_status.
   destruct (hd dflt_outcome fs) as [| | | | |s h]; simpl;
     repeat match goal with
            | |- context [if ?b then _ else _] => destruct b; simpl
@@ -76,7 +76,7 @@ Lemma loop_sleeps_len : forall fuel c jit a fs last,
   sends (loop c jit fuel a fs last) = S (length (sleeps (loop c jit fuel a fs last))) /\
   length (ubounds (loop c jit fuel a fs last)) = length (sleeps (loop c jit fuel a fs last)).
 Proof.
-  induction fuel as [|fuel IH]; intros c jit a fs last Hf Hn; [congruence|]. simpl.
+  induction fuel as [|fuel IH]; intros c jit a fs last Hf Hn; [congruence|]. simpl. unfold guard_conn, guard_status.
   destruct (hd dflt_outcome fs) as [| | | | |s h]; simpl;
     repeat match goal with
            | |- context [if ?b then _ else _] => let E := fresh "E" in destruct b eqn:E; simpl
@@ -113,7 +113,7 @@ Lemma loop_resend : forall fuel c jit a fs last i,
   (S i < sends (loop c jit fuel a fs last))%nat ->
   resent_outcome c (nth i fs dflt_outcome) = true /\ (a + i < max_retries c)%nat.
 Proof.
-  induction fuel as [|fuel IH]; intros c jit a fs last i H; simpl in H; [lia|].
+  induction fuel as [|fuel IH]; intros c jit a fs last i H; simpl in H; [lia|]. unfold guard_conn, guard_status in H.
   destruct (hd dflt_outcome fs) as [| | | | |s h] eqn:Eo; simpl in H;
     repeat match type of H with
            | context [if ?b then _ else _] => let E := fresh "E" in destruct b eqn:E; simpl in H
@@ -135,7 +135,7 @@ Lemma loop_sleeps_range : forall fuel c jit a fs last,
   cfg_ok c -> (forall k, fle fzero (jit k) = true) ->
   Forall (in_range c) (sleeps (loop c jit fuel a fs last)).
 Proof.
-  induction fuel as [|fuel IH]; intros c jit a fs last Hc Hj; simpl; [constructor|].
+  induction fuel as [|fuel IH]; intros c jit a fs last Hc Hj; simpl; [constructor|]. unfold guard_conn, guard_status.
   destruct (hd dflt_outcome fs) as [| | | | |s h]; simpl;
     repeat match goal with
            | |- context [if ?b then _ else _] => destruct b; simpl
@@ -148,7 +148,7 @@ Lemma loop_ubounds : forall fuel c jit a fs last i,
   (i < length (ubounds (loop c jit fuel a fs last)))%nat ->
   nth i (ubounds (loop c jit fuel a fs last)) FNaN = exp_delay c (a + i).
 Proof.
-  induction fuel as [|fuel IH]; intros c jit a fs last i H; simpl in *; [lia|].
+  induction fuel as [|fuel IH]; intros c jit a fs last i H; simpl in *; [lia|]. unfold guard_conn, guard_status in *.
   destruct (hd dflt_outcome fs) as [| | | | |s h]; simpl in *;
     repeat match type of H with
            | context [if ?b then _ else _] => destruct b; simpl in *
@@ -169,7 +169,7 @@ Lemma loop_final : forall fuel c jit a fs last,
   | FRaise o => o <> dflt_outcome /\ forall s h, o <> OResp s h
   end.
 Proof.
-  induction fuel as [|fuel IH]; intros c jit a fs last Hf Hn; [congruence|]. simpl.
+  induction fuel as [|fuel IH]; intros c jit a fs last Hf Hn; [congruence|]. simpl. unfold guard_conn, guard_status.
   destruct (hd dflt_outcome fs) as [| | | | |s h]; simpl;
     repeat match goal with
            | |- context [if ?b then _ else _] => let E := fresh "E" in destruct b eqn:E; simpl
@@ -193,7 +193,7 @@ Qed.
 Lemma sends_le_max_plus_1 : forall c jit fs,
   (1 <= sends (request_with_retry c jit fs) <= max_retries c + 1)%nat.
 Proof.
-  intros c jit fs. unfold request_with_retry. split.
+  intros c jit fs. unfold request_with_retry, loop_fuel. split.
   - rewrite Nat.add_1_r. apply loop_sends_pos.
   - apply loop_sends_le.
 Qed.
@@ -204,7 +204,7 @@ Lemma resend_only_after_retryable : forall c jit fs i,
   resent_outcome c (nth i fs dflt_outcome) = true /\
   (i < max_retries c)%nat.
 Proof.
-  intros c jit fs i H. unfold request_with_retry in H.
+  intros c jit fs i H. unfold request_with_retry, loop_fuel in H.
   destruct (loop_resend _ _ _ _ _ _ _ H) as [H1 H2].
   split; [apply resent_is_retryable; exact H1 | split; [exact H1 | lia]].
 Qed.
@@ -213,7 +213,7 @@ Lemma one_sleep_per_resend : forall c jit fs,
   S (length (sleeps (request_with_retry c jit fs))) = sends (request_with_retry c jit fs) /\
   length (ubounds (request_with_retry c jit fs)) = length (sleeps (request_with_retry c jit fs)).
 Proof.
-  intros c jit fs. unfold request_with_retry.
+  intros c jit fs. unfold request_with_retry, loop_fuel.
   destruct (loop_sleeps_len (max_retries c + 1) c jit 0 fs None ltac:(lia) ltac:(lia)) as [H1 H2].
   split; [symmetry; exact H1 | exact H2].
 Qed.
@@ -222,7 +222,7 @@ Lemma delay_in_0_backoff_max : forall c jit fs,
   cfg_ok c -> (forall k, jit_ok c k (jit k)) ->
   Forall (in_range c) (sleeps (request_with_retry c jit fs)).
 Proof.
-  intros c jit fs Hc Hj. unfold request_with_retry. apply loop_sleeps_range; [exact Hc|].
+  intros c jit fs Hc Hj. unfold request_with_retry, loop_fuel. apply loop_sleeps_range; [exact Hc|].
   intro k. destruct (Hj k) as [H _]. exact H.
 Qed.
 
@@ -233,7 +233,7 @@ Lemma final_classes : forall c jit fs,
   | FRaise o => forall s h, o <> OResp s h
   end.
 Proof.
-  intros c jit fs. unfold request_with_retry.
+  intros c jit fs. unfold request_with_retry, loop_fuel.
   pose proof (loop_final (max_retries c + 1) c jit 0 fs None ltac:(lia) ltac:(lia)) as H.
   destruct (fin (loop c jit (max_retries c + 1) 0 fs None)); [exact H | | exact (proj2 H)].
   destruct H as [H1 H2]; split; [exact H1 | lia].
